@@ -249,6 +249,9 @@ Done == run = 3
 Verdict == Judge(TRUE, fs[1], audit, fs[2])
 Refines == Done => Verdict = "ok"
 
+(* Negative control: with auditing information the results DO depend on ambient state (the property's exemption is needed). *)
+SameEvenWithAudit == Done => fs[1] = fs[2]
+
 (* Paths never depend on ambient state in this design, whatever gates are open.                            *)
 PathsStable == Done => DOMAIN fs[1] = DOMAIN fs[2]
 
